@@ -153,6 +153,7 @@ def gen_C03(g, tier):
         cs.append(Case('cv.toH %s' % frs(j), 'cmp', 'random'))
         cs.append(Case('cv.toU %s' % frs(j), 'cmp', 'random'))
         for op in ('mx.JQh', 'mx.JQu'): cs.append(Case('%s %s %s' % (op, frs(j), frs(a)), 'cmp', 'random'))
+        for op in ('mx.QhJ', 'mx.QuJ'): cs.append(Case('%s %s %s' % (op, frs(a), frs(j)), 'cmp', 'random-biquaternion-times-jones'))
         for op in ('mx.JqhR', 'mx.JquR'): cs.append(Case('%s %s %s' % (op, frs(j), frs(qa)), 'cmp', 'random'))
         for op in ('mx.qhRJ', 'mx.quRJ'): cs.append(Case('%s %s %s' % (op, frs(qa), frs(j)), 'cmp', 'random'))
         for op in ('mx.qhqu', 'mx.quqh'): cs.append(Case('%s %s %s' % (op, frs(qa), frs(qb)), 'cmp', 'random'))
@@ -247,6 +248,7 @@ def gen_C04(g, tier):
         cs.append(Case('o.c04.dettrace %s %s %s' % (frs(a), frs(b), frs(c)), 'orc', 'random'))
         cs.append(Case('o.c04.conjherm %s %s' % (frs(a), frs(b)), 'orc', 'random'))
         cs.append(Case('o.c04.inv %s' % frs(a), 'orc', 'random'))
+        cs.append(Case('o.c04.intscalar %s %d' % (frs(a), g.choice([2, -7, 3, 1000, -1, 1, 12, g.randint(2, 99)])), 'orc', 'integer-typed-scalar'))
         cs.append(Case('o.c04.matrix %s %s' % (frs(a), frs(b)), 'orc', 'random'))
         cs.append(Case('o.c04.diag %s' % frs(a), 'orc', 'random'))
     return cs
@@ -404,9 +406,14 @@ def gen_C02(g, tier):
         cs.append(Case('basis.seq %d %s' % (k, ' '.join(seq)), 'cmp', 'basis-sequence'))
         seq2 = [x for b in seq for x in ([b, 'bad'] if g.random() < 0.3 else [b])]
         cs.append(Case('basis.seq %d %s' % (len(seq2), ' '.join(seq2)), 'cmp', 'basis-sequence-with-refused-settings'))
+    named = [b for t, b in bas if t != 'ell']; ells = [b for t, b in bas if t == 'ell']
+    # one Jones matrix (and one Stokes vector) across a change of basis, elliptical to elliptical in particular
+    for _ in range(8 if tier == 'quick' else 200):
+        b1, b2 = g.choice(ells + named), g.choice(ells + named); s_, j_ = g.rats(4), g.rats(8)
+        chk = None if b2 in named else small_rel(1e-11, s_, (j_, 4))
+        cs.append(Case('o.c02.transform2 %s %s %s %s' % (b1, frs(s_), frs(j_), b2), 'orc', 'same-matrix-across-basis-change', check=chk))
     # histories that contain refused settings (set_basis throws for the enumerator Elliptical and for unknown codes): the two
     # directions of the conversion must stay mutually consistent, in whatever basis the object is left
-    named = [b for t, b in bas if t != 'ell']; ells = [b for t, b in bas if t == 'ell']
     for _ in range(8 if tier == 'quick' else 150):
         last = g.choice(named + ells[:3]); hist = [g.choice(named + ells) for _ in range(g.randint(0, 3))] + [last] + ['bad' for _ in range(g.randint(1, 2))]
         b = 'hist %d %s' % (len(hist), ' '.join(hist)); s_, j_, j2_ = g.rats(4), g.rats(8), g.rats(8)
